@@ -48,6 +48,18 @@ def perturb(desc, rng, feats=None):
         if len(items) >= 2 and set(desc) <= HEADER_KEYS and rng.random() < 0.4:
             items.reverse()
             feats.add("header-labels-descending")
+        # positional structures (SUIT_Digest, COSE_Sign1, COSE_Encrypt, COSE_recipient, the authentication wrapper) are written by member
+        # *name* in a description: the order in which the names are listed (sorted keys, hand-written YAML) must not matter
+        keys = set(desc)
+        positional = (keys == {"suit-digest-algorithm-id", "suit-digest-bytes"} or {"protected", "unprotected"} <= keys
+                      or ("SuitDigest" in keys and all(k == "SuitDigest" or k.startswith("SuitAuthentication") for k in keys)))
+        if positional and len(items) >= 2 and rng.random() < 0.35:
+            if "SuitDigest" in keys:
+                # keep the numbered blocks in their relative order (their order is the order on the wire), move only SuitDigest
+                items = [it for it in items if it[0] != "SuitDigest"] + [it for it in items if it[0] == "SuitDigest"]
+            else:
+                items = sorted(items, key=lambda it: it[0]) if rng.random() < 0.5 else list(reversed(items))
+            feats.add("positional-members-out-of-order")
         out = {}
         for k, v in items:
             if k == "suit-components" and isinstance(v, list) and rng.random() < 0.4:
@@ -134,15 +146,25 @@ def run_impl_create(desc, files):
         clear_files(files, d)
 
 
-def run_cli_create(desc, files, fmt):
-    """through the CLI entry point cmd_create.main with a real JSON / YAML description file"""
+def run_cli_create(desc, files, fmt, decoy=False):
+    """through the CLI entry point cmd_create.main with a real JSON / YAML description file.
+    decoy: the description lives in a sub-directory that holds files of the same names with other contents"""
     import json
     import yaml
+    import shutil
     from suit_generator import cmd_create
 
     d = scratch_dir()
     write_files(files, d)
     inp = os.path.join(d, "input." + fmt)
+    cfgdir = os.path.join(d, "config_dir")
+    if decoy:
+        os.makedirs(cfgdir, exist_ok=True)
+        for name, content in files.items():
+            if "/" not in name:
+                with open(os.path.join(cfgdir, name), "wb") as fh:
+                    fh.write(bytes(x ^ 0x3C for x in content) + b"decoy")
+        inp = os.path.join(cfgdir, "input." + fmt)
     outp = os.path.join(d, "out.suit")
     with open(inp, "w", encoding="utf-8") as fh:
         if fmt == "json":
@@ -166,6 +188,8 @@ def run_cli_create(desc, files, fmt):
     finally:
         os.chdir(old)
         clear_files(files, d)
+        if decoy:
+            shutil.rmtree(cfgdir, ignore_errors=True)
         for p in (inp, outp):
             try:
                 os.unlink(p)
